@@ -1306,8 +1306,9 @@ pub fn fam_resolve(tier: Tier) -> Vec<Config> {
     // where the retry tag and the filter's tag sit: on the scenario, or on the feature
     // of a scenario inside a rule
     let placements: &[bool] = if thorough { &[false, true] } else { &[false] };
-    for b_retry in [None, Some(1usize), Some(2)] {
-        for c_retry in [None, Some(1usize), Some(2)] {
+    // (an explicit 0 is a configured value: it beats the default of one retry)
+    for b_retry in [None, Some(1usize), Some(2), Some(0)] {
+        for c_retry in [None, Some(1usize), Some(2), Some(0)] {
             for b_delay in [None, Some(s1), Some(s5)] {
                 for c_delay in [None, Some(s5)] {
                     for tag in tags_alphabet {
